@@ -371,7 +371,7 @@ func checkEventsContainCreateEvent(events []PDU) error {
 			verBody := struct {
 				Version string `json:"room_version"`
 			}{}
-			err := json.Unmarshal(content, &verBody)
+			err := unmarshalExact(content, &verBody)
 			if err != nil {
 				return err
 			}
